@@ -8,17 +8,22 @@ reference model (`CG/Model/Ops.lean`), for every well-formed graph (`WF g`), as 
 (the two maps are extensional, so every view agrees), and lifts each of them through `C03.step_eq_stepRef` to the
 mechanism-level machine (`step` / `run`).
 
-  1. `addNode_deleteNode`          a fresh node comes and goes
-  2. `addEdge_deleteNode_fresh`    a fresh node comes with an edge to / from an existing node, and goes (cascade)
-  3. `addEdge_deleteEdge`          an accepted edge between two existing non-adjacent nodes comes and goes
-  4. `deleteEdge_addEdge`          an edge goes and comes back (same stored orientation, type, metadata)
-  5. `changeEdgeType_back`         an edge is retyped and retyped back
-  6. `replaceNode_back`            a node is renamed to a fresh identifier and renamed back
-  7. `replaceNode_inplace_same`    an in-place `replace_node` that re-asserts what the node already has
-  8. `refused_is_identity`         a refused single-element call
-  9. `detours_compose`             any finite sequence of the above
+  1.  `addNode_deleteNode`          a fresh node comes and goes
+  2.  `addEdge_deleteNode_fresh`    a fresh node comes with an edge to / from an existing node, and goes (cascade)
+  2b. `ghosts_come_and_go`          a whole episode around a set of fresh names (the "hub" of the harness)
+  3.  `addEdge_deleteEdge`          an accepted edge between two existing non-adjacent nodes comes and goes
+  4.  `deleteEdge_addEdge`          an edge goes and comes back (same stored orientation, type, metadata)
+  5.  `changeEdgeType_back`         an edge is retyped and retyped back
+  6.  `replaceNode_back`            a node is renamed to a fresh identifier and renamed back;
+      `replaceNode_back_accepted`   the way back is accepted whenever the way there was
+  7.  `replaceNode_inplace_same`    an in-place `replace_node` that re-asserts what the node already has
+  8.  `refused_is_identity`         a refused single-element call
+  9.  `detours_compose`             any finite sequence of the above; `dirty_build_eq_clean_build`
 
-Side conditions are explained at each law; `Detour` (section 9) collects them.
+Each law comes in two forms: about the atomic reference operations ("if the calls are accepted, the result is `g`"),
+and `…_run` about the state machine, where acceptance is NOT assumed: the side conditions are facts about `g` alone,
+and a refused first call is followed by a refused (or trivial) second call.  `Detour` (section 9) collects the
+`…_run` side conditions.  Section `NotIdentity` has witnesses showing that the side conditions are needed.
 -/
 import CG.Proofs.Lemmas.Detours
 
@@ -141,6 +146,117 @@ example : (step C03.Ex.gr (.addEdge { id := "X" } { id := "zq detour lag(n=9)" }
   ⟨by decide +kernel, addEdge_deleteNode_fresh_run C03.Ex.wf_gr (s := { id := "X" })
     (d := { id := "zq detour lag(n=9)" }) (f := "zq detour lag(n=9)") (by decide) (.inr ⟨rfl, by decide⟩) _ _ _⟩
 
+/-! ## 2b. ghosts: a whole episode around fresh names
+
+The harness also lets a *hub* come and go: several fresh nodes, edges among them and into the graph, then
+`delete_node` of each (`harness/gen.py`, detour 5).  That is not a sequence of the two-call shapes above (the
+episode is nested), so it gets its own law; laws 1 and 2 are its two-call instances. -/
+
+/-- the calls of a ghost episode around the names `F` (all fresh in `g0`): creating a ghost node; an `add_edge` that
+    touches a ghost and whose end points are ghosts or nodes of `g0` (so an implicitly created node is a ghost);
+    deleting an edge that touches a ghost; deleting a ghost.  Any argument form, edge type, metadata, `validate`. -/
+inductive GhostOp (F : String → Prop) (g0 : Graph) : Op → Prop
+  | addNode (id : String) (vt : VType) (m : Meta) : F id → GhostOp F g0 (.addNode id vt m)
+  | addNodeObj (id : String) (vt : VType) (m : Meta) : F id → GhostOp F g0 (.addNodeObj id vt m)
+  | addEdge (s d : Endpoint) (ty : EdgeType) (m : Meta) (v : Bool) :
+      (F s.id ∨ F d.id) → (F s.id ∨ s.id ∈ g0.nodes) → (F d.id ∨ d.id ∈ g0.nodes) →
+      GhostOp F g0 (.addEdge s d ty m v)
+  | deleteEdge (s d : String) (ty? : Option EdgeType) : (F s ∨ F d) → GhostOp F g0 (.deleteEdge s d ty?)
+  | deleteNode (id : String) : F id → GhostOp F g0 (.deleteNode id)
+
+/-- a call of a ghost episode, accepted or refused, changes nothing outside the ghosts -/
+theorem ghost_step {F : String → Prop} {g0 g : Graph} (hw : WF g) (h : Ghost F g0 g) {op : Op}
+    (hop : GhostOp F g0 op) : Ghost F g0 (step g op).1 := by
+  rw [C03.step_eq_stepRef hw]
+  cases hop with
+  | addNode id vt m hF =>
+    show Ghost F g0 (lift g (addNode g id vt m)).1
+    cases hadd : addNode g id vt m with
+    | error e => exact h
+    | ok g' =>
+      obtain ⟨r, _, _, rfl⟩ := addNode_ok hadd
+      exact h.insNode hF r
+  | addNodeObj id vt m hF =>
+    show Ghost F g0 (lift g (addNodeObj g id vt m)).1
+    cases hadd : addNodeObj g id vt m with
+    | error e => exact h
+    | ok g' =>
+      obtain ⟨r, _, _, rfl⟩ := addNodeObj_ok hadd
+      exact h.insNode hF r
+  | addEdge s d ty m v hF hs hd =>
+    show Ghost F g0 (lift g (addEdgeE g s d ty m v)).1
+    cases hadd : addEdgeE g s d ty m v with
+    | error e => exact h
+    | ok g' =>
+      obtain ⟨_, g1, g2, k, hg1, hg2, _, _, hk, _, _, rfl, _⟩ := addEdgeE_ok hadd
+      refine ((h.ensureNode hs hg1).ensureNode hd hg2).insEdge ?_ _
+      rcases hk with rfl | rfl
+      · exact hF
+      · exact hF.symm
+  | deleteEdge s d ty? hF =>
+    show Ghost F g0 (lift g (deleteEdge g s d ty?)).1
+    cases hdel : deleteEdge g s d ty? with
+    | error e => exact h
+    | ok g' => rw [deleteEdge_ok hdel]; exact h.delEdgeRaw hF
+  | deleteNode id hF =>
+    show Ghost F g0 (lift g (deleteNode g id)).1
+    cases hdel : deleteNode g id with
+    | error e => exact h
+    | ok g' => rw [deleteNode_ok hdel]; exact h.delNodeRaw hF
+
+/-- every step of the state machine keeps the invariant (C03 refinement + `wf_stepRef`) -/
+theorem wf_step {g : Graph} (hw : WF g) (op : Op) : WF (step g op).1 := by
+  rw [C03.step_eq_stepRef hw]; exact wf_stepRef hw op
+
+theorem ghost_run {F : String → Prop} {g0 : Graph} :
+    ∀ (ops : List Op) (g : Graph), WF g → Ghost F g0 g → (∀ op ∈ ops, GhostOp F g0 op) →
+      WF (run g ops) ∧ Ghost F g0 (run g ops) := by
+  intro ops
+  induction ops with
+  | nil => exact fun g hw h _ => ⟨hw, h⟩
+  | cons op ops ih =>
+    intro g hw h hops
+    rw [run_cons]
+    exact ih _ (wf_step hw op) (ghost_step hw h (hops op List.mem_cons_self))
+      (fun op' hm => hops op' (List.mem_cons_of_mem _ hm))
+
+/-- **Law 2b.**  `F` is a set of names none of which is a node of `g`.  Any history of ghost calls (`GhostOp`: nodes
+    with names in `F` are created, explicitly or as end points of `add_edge`; edges are added that touch at least one
+    of them and otherwise only nodes of `g`; such edges and nodes are deleted), accepted or refused call by call,
+    after which no name of `F` is a node any more, ends in `g`: every edge that touched a ghost went with it
+    (`WF.ends` of the final state), no other edge and no other node was ever written. -/
+theorem ghosts_come_and_go {F : String → Prop} {g : Graph} (hw : WF g) (hfresh : ∀ n, F n → n ∉ g.nodes)
+    {ops : List Op} (hops : ∀ op ∈ ops, GhostOp F g op) (hgone : ∀ n, F n → n ∉ (run g ops).nodes) :
+    run g ops = g := by
+  obtain ⟨hw', h'⟩ := ghost_run ops g hw (Ghost.refl F g) hops
+  exact h'.eq_of_gone hw hw' hfresh hgone
+
+/-- the hub of the harness on `a → b → c`: a hub with two ghost parents, two ghost children (one named by a lone
+    quote, one by a comma-blank), an undirected edge to `a` and a bidirected edge from `c`; then everything goes -/
+example : run C03.Ex.g [.addEdge { id := "zq p1" } { id := "zq hub" } .directed [] true,
+    .addEdge { id := "'" } { id := "zq hub" } .directed [] true,
+    .addEdge { id := "zq hub" } { id := "zq c1" } .directed [] true,
+    .addEdge { id := "zq hub" } { id := ", " } .directed [] true,
+    .addEdge { id := "zq hub" } { id := "a" } .undirected [] true,
+    .addEdge { id := "c" } { id := "zq hub" } .bidirected [] true,
+    .deleteNode "zq hub", .deleteNode "zq p1", .deleteNode "'", .deleteNode "zq c1", .deleteNode ", "] = C03.Ex.g := by
+  refine ghosts_come_and_go (F := fun n => n ∈ ["zq hub", "zq p1", "'", "zq c1", ", "]) C03.Ex.wf_g (by decide) ?_
+    (by decide +kernel)
+  intro op hm
+  simp only [List.mem_cons, List.not_mem_nil, or_false] at hm
+  rcases hm with rfl | rfl | rfl | rfl | rfl | rfl | rfl | rfl | rfl | rfl | rfl
+  · exact .addEdge _ _ _ _ _ (.inl (by decide)) (.inl (by decide)) (.inl (by decide))
+  · exact .addEdge _ _ _ _ _ (.inl (by decide)) (.inl (by decide)) (.inl (by decide))
+  · exact .addEdge _ _ _ _ _ (.inl (by decide)) (.inl (by decide)) (.inl (by decide))
+  · exact .addEdge _ _ _ _ _ (.inl (by decide)) (.inl (by decide)) (.inl (by decide))
+  · exact .addEdge _ _ _ _ _ (.inl (by decide)) (.inl (by decide)) (.inr (by decide))
+  · exact .addEdge _ _ _ _ _ (.inr (by decide)) (.inr (by decide)) (.inl (by decide))
+  · exact .deleteNode _ (by decide)
+  · exact .deleteNode _ (by decide)
+  · exact .deleteNode _ (by decide)
+  · exact .deleteNode _ (by decide)
+  · exact .deleteNode _ (by decide)
+
 /-! ## 3. an edge between two existing nodes comes and goes -/
 
 /-- **Law 3** (`add_edge`; `delete_edge`).  `s`, `d` exist; the `add_edge` (any of the six types, any metadata,
@@ -250,8 +366,8 @@ example : run C03.Ex.g [.addEdge { id := "a" } { id := "c" } .undirected [("w", 
 /-- the accepted case is really taken in that example -/
 example : (step C03.Ex.g (.addEdge { id := "a" } { id := "c" } .undirected [("w", "2")] true)).2 = none := by decide
 
-/-- time-series class: `X -- A lag(n=3)`… no: `X lag(n=1) -- A lag(n=3)` asked later → earlier is stored earlier →
-    later, and only the stored orientation can be deleted -/
+/-- time-series class: `X lag(n=1) -- A lag(n=3)`, asked later → earlier, is stored earlier → later, and only the
+    stored orientation can be deleted -/
 example : ∃ g', addEdgeE C03.Ex.gr { id := "X lag(n=1)" } { id := "A lag(n=3)" } .undirected [] true = .ok g' ∧
     deleteEdge g' "A lag(n=3)" "X lag(n=1)" none = .ok C03.Ex.gr ∧
     deleteEdge g' "X lag(n=1)" "A lag(n=3)" none = .error .edgeDoesNotExist := by
@@ -478,14 +594,44 @@ theorem replaceNode_back {g g' g'' : Graph} (hw : WF g) {a b : String} {r : Node
   · exact rename_back_edges hw ha hnb he' he''
   · rw [hm'', hm']
 
-/-- Law 6 for the state machine; `hacc` says that the way back is accepted when the way there was (see the header
-    of this section in the report for when that can fail: never on an acyclic graph). -/
+/-- **Law 6, acceptance.**  Whenever the way there is accepted, so is the way back — on every well-formed graph,
+    acyclic or not, whatever variable type / metadata arguments the two calls carry.  Side condition: in the
+    time-series class the new name has the lag of the old one (`hlag`).  Then the states of the way back are the
+    states of the way there with the two names exchanged (`Detours.Iso`, `Detours.iso_rename_start`), the two copy
+    loops walk the same edges in the same order (`Detours.Iso.edgesTo`, `Detours.Iso.edgesFrom`), and every check of
+    the way back — duplicate, reverse edge, orientation, directed cycle through the destination of each copied edge
+    — is a check that passed on the way there (`Detours.Iso.addEdge`, `Detours.rename_back_accepted`).
+    With another lag a copied non-directed edge may have been turned round and this argument does not apply; nothing
+    is claimed for that case. -/
+theorem replaceNode_back_accepted {g g' : Graph} (hw : WF g) {a b : String} {r : NodeRec} (hr : g.nodes[a]? = some r)
+    (hlag : g.cls = .ts → (Name.parse b).map (·.2) = some r.lag)
+    {vt1 : Option VType} {m1 : Option Meta} (h1 : replaceNode g a (some b) none none vt1 m1 = .ok g')
+    (vt2 : Option VType) (m2 : Option Meta) : ∃ g'', replaceNode g' b (some a) none none vt2 m2 = .ok g'' := by
+  rw [replaceNode_some_eq] at h1
+  simp only [replaceNode_some_eq]
+  refine rename_back_accepted hw hr h1 (fun hc rb hrb => ?_) vt2 m2
+  have h3 := hlag hc
+  rw [(C03.mkNode_ts hrb hc).1] at h3
+  simpa using h3
+
+/-- Law 6 in one piece: after an accepted `replace_node(a, b)`, `replace_node(b, a)` is accepted and gives `g` -/
+theorem replaceNode_there_and_back {g g' : Graph} (hw : WF g) {a b : String} {r : NodeRec}
+    (hr : g.nodes[a]? = some r) (hplain : g.cls = .plain → r.var = "" ∧ r.lag = 0)
+    (hlag : g.cls = .ts → (Name.parse b).map (·.2) = some r.lag)
+    {vt1 vt2 : Option VType} (hvt1 : ∀ vt, vt1 = some vt → vt = r.vtype) (hvt2 : ∀ vt, vt2 = some vt → vt = r.vtype)
+    (h1 : replaceNode g a (some b) none none vt1 none = .ok g') :
+    replaceNode g' b (some a) none none vt2 none = .ok g := by
+  obtain ⟨g'', h2⟩ := replaceNode_back_accepted hw hr hlag h1 vt2 none
+  rw [h2, replaceNode_back hw hr hplain hlag hvt1 hvt2 h1 h2]
+
+/-- Law 6 for the state machine.  Side conditions: `a` is a node with record `r`, `b` is fresh, the variable-type
+    arguments are absent or the node's own, `hlag` / `hplain` as in `replaceNode_back`.  Nothing is assumed about
+    acceptance: a refused way there (a cycle test of the copy loop fires on a graph that holds a directed cycle, or
+    the time-series grammar rejects `b`) leaves `g`, and the way back is then refused as well (`b` is no node). -/
 theorem replaceNode_back_run {g : Graph} (hw : WF g) {a b : String} {r : NodeRec} (hr : g.nodes[a]? = some r)
     (hb : b ∉ g.nodes) (hplain : g.cls = .plain → r.var = "" ∧ r.lag = 0)
     (hlag : g.cls = .ts → (Name.parse b).map (·.2) = some r.lag)
-    {vt1 vt2 : Option VType} (hvt1 : ∀ vt, vt1 = some vt → vt = r.vtype) (hvt2 : ∀ vt, vt2 = some vt → vt = r.vtype)
-    (hacc : ∀ g', replaceNode g a (some b) none none vt1 none = .ok g' →
-      ∃ g'', replaceNode g' b (some a) none none vt2 none = .ok g'') :
+    {vt1 vt2 : Option VType} (hvt1 : ∀ vt, vt1 = some vt → vt = r.vtype) (hvt2 : ∀ vt, vt2 = some vt → vt = r.vtype) :
     run g [.replaceNode a (some b) none none vt1 none, .replaceNode b (some a) none none vt2 none] = g := by
   have e1 : ∀ g1 x y vt, stepRef g1 (.replaceNode x (some y) none none vt none) =
       lift g1 (replaceNode g1 x (some y) none none vt none) := fun _ _ _ _ => rfl
@@ -493,10 +639,8 @@ theorem replaceNode_back_run {g : Graph} (hw : WF g) {a b : String} {r : NodeRec
   cases h : replaceNode g a (some b) none none vt1 none with
   | ok g' =>
     simp only [lift]
-    rw [C03.step_eq_stepRef (wf_replaceNode h hw), e1]
-    obtain ⟨g'', h2⟩ := hacc g' h
-    rw [h2]
-    exact replaceNode_back hw hr hplain hlag hvt1 hvt2 h h2
+    rw [C03.step_eq_stepRef (wf_replaceNode h hw), e1, replaceNode_there_and_back hw hr hplain hlag hvt1 hvt2 h]
+    rfl
   | error e =>
     simp only [lift]
     rw [C03.step_eq_stepRef hw, e1, replaceNode_some_eq]
@@ -504,31 +648,19 @@ theorem replaceNode_back_run {g : Graph} (hw : WF g) {a b : String} {r : NodeRec
     rw [ExtTreeMap.getElem?_eq_none hb]
     rfl
 
-/-- `b` (a parent and a child) is renamed to `zq tmp` and back on `a → b → c`; both calls are accepted -/
+/-- `b` (a parent and a child) is renamed to `zq tmp` and back on `a → b → c`; the way there is accepted -/
 example : (step C03.Ex.g (.replaceNode "b" (some "zq tmp") none none (some .unspecified) none)).2 = none ∧
     run C03.Ex.g [.replaceNode "b" (some "zq tmp") none none (some .unspecified) none,
-      .replaceNode "zq tmp" (some "b") none none (some .unspecified) none] = C03.Ex.g := by
-  refine ⟨by decide +kernel, replaceNode_back_run C03.Ex.wf_g (r := C03.Ex.nr) (by decide) (by decide)
-    (fun _ => ⟨rfl, rfl⟩) (fun hc => by cases hc) (fun _ h => by cases h; rfl) (fun _ h => by cases h; rfl) ?_⟩
-  intro g' h
-  have hd : (lift (lift C03.Ex.g (replaceNode C03.Ex.g "b" (some "zq tmp") none none (some .unspecified) none)).1
-      (replaceNode (lift C03.Ex.g (replaceNode C03.Ex.g "b" (some "zq tmp") none none (some .unspecified) none)).1
-        "zq tmp" (some "b") none none (some .unspecified) none)).2 = none := by decide +kernel
-  rw [h] at hd
-  exact lift_none hd
+      .replaceNode "zq tmp" (some "b") none none (some .unspecified) none] = C03.Ex.g :=
+  ⟨by decide +kernel, replaceNode_back_run C03.Ex.wf_g (r := C03.Ex.nr) (by decide) (by decide)
+    (fun _ => ⟨rfl, rfl⟩) (fun hc => by cases hc) (fun _ h => by cases h; rfl) (fun _ h => by cases h; rfl)⟩
 
 /-- time-series class: `X` (two parents) is renamed to `zq tmp` (same lag 0) and back -/
 example : (step C03.Ex.gr (.replaceNode "X" (some "zq tmp") none none none none)).2 = none ∧
     run C03.Ex.gr [.replaceNode "X" (some "zq tmp") none none none none,
-      .replaceNode "zq tmp" (some "X") none none none none] = C03.Ex.gr := by
-  refine ⟨by decide +kernel, replaceNode_back_run C03.Ex.wf_gr (r := C03.Ex.nX) (by decide) (by decide)
-    (fun hc => by cases hc) (fun _ => by decide) (fun _ h => by cases h) (fun _ h => by cases h) ?_⟩
-  intro g' h
-  have hd : (lift (lift C03.Ex.gr (replaceNode C03.Ex.gr "X" (some "zq tmp") none none none none)).1
-      (replaceNode (lift C03.Ex.gr (replaceNode C03.Ex.gr "X" (some "zq tmp") none none none none)).1
-        "zq tmp" (some "X") none none none none)).2 = none := by decide +kernel
-  rw [h] at hd
-  exact lift_none hd
+      .replaceNode "zq tmp" (some "X") none none none none] = C03.Ex.gr :=
+  ⟨by decide +kernel, replaceNode_back_run C03.Ex.wf_gr (r := C03.Ex.nX) (by decide) (by decide)
+    (fun hc => by cases hc) (fun _ => by decide) (fun _ h => by cases h) (fun _ h => by cases h)⟩
 
 /-! ## 7. in-place `replace_node` that re-asserts what the node has -/
 
@@ -614,8 +746,8 @@ example : run C03.Ex.g [C03.Ex.op] = C03.Ex.g :=
 
 /-- One detour: a short history together with the side conditions, at the state `g` where it starts, under which it
     is the identity.  Every condition is a fact about `g` alone (membership, freshness, a stored record, "the
-    destination is on no directed cycle"), except in `refused` (the call is refused) and in `rename` (`hacc`: the way
-    back is accepted when the way there was). -/
+    destination is on no directed cycle"), except in `refused` (the call is refused) and in `ghosts` (at the end no
+    ghost is left).  No constructor assumes that a call is accepted. -/
 inductive Detour (g : Graph) : List Op → Prop
   /-- law 8 -/
   | refused (op : Op) (e : Err) : op.single = true → (step g op).2 = some e → Detour g [op]
@@ -627,6 +759,9 @@ inductive Detour (g : Graph) : List Op → Prop
   | freshEdgeComeGo (s d : Endpoint) (f : String) (ty : EdgeType) (m : Meta) (v : Bool) :
       f ∉ g.nodes → ((s.id = f ∧ d.id ∈ g.nodes) ∨ (d.id = f ∧ s.id ∈ g.nodes)) →
       Detour g [.addEdge s d ty m v, .deleteNode f]
+  /-- law 2b -/
+  | ghosts (F : String → Prop) (ops : List Op) : (∀ n, F n → n ∉ g.nodes) → (∀ op ∈ ops, GhostOp F g op) →
+      (∀ n, F n → n ∉ (run g ops).nodes) → Detour g ops
   /-- law 3, stored as asked -/
   | edgeComeGo (s d : Endpoint) (ty : EdgeType) (m : Meta) (v : Bool) (ty? : Option EdgeType) :
       s.id ∈ g.nodes → d.id ∈ g.nodes → (s.id, d.id) ∉ g.edges → (g.cls = .ts → g.lagOf s.id ≤ g.lagOf d.id) →
@@ -648,8 +783,6 @@ inductive Detour (g : Graph) : List Op → Prop
       g.nodes[a]? = some r → b ∉ g.nodes → (g.cls = .plain → r.var = "" ∧ r.lag = 0) →
       (g.cls = .ts → (Name.parse b).map (·.2) = some r.lag) →
       (∀ vt, vt1 = some vt → vt = r.vtype) → (∀ vt, vt2 = some vt → vt = r.vtype) →
-      (∀ g', replaceNode g a (some b) none none vt1 none = .ok g' →
-        ∃ g'', replaceNode g' b (some a) none none vt2 none = .ok g'') →
       Detour g [.replaceNode a (some b) none none vt1 none, .replaceNode b (some a) none none vt2 none]
   /-- law 7 -/
   | reassert (n : String) (r : NodeRec) (vt? : Option VType) (m? : Option Meta) :
@@ -664,13 +797,14 @@ theorem detour_run {g : Graph} (hw : WF g) {ops : List Op} (h : Detour g ops) : 
   | nodeComeGo id vt m hn => exact addNode_deleteNode_run hw hn vt m
   | nodeObjComeGo id vt m hn => exact addNodeObj_deleteNode_run hw hn vt m
   | freshEdgeComeGo s d f ty m v hf hends => exact addEdge_deleteNode_fresh_run hw hf hends ty m v
+  | ghosts F ops hfresh hops hgone => exact ghosts_come_and_go hw hfresh hops hgone
   | edgeComeGo s d ty m v ty? hs hd hsd hle hty => exact addEdge_deleteEdge_run hw hs hd hsd hle ty m v ty? hty
   | edgeComeGoFlipped s d ty m v ty? hs hd hds hc hlt hty =>
     exact addEdge_deleteEdge_flipped_run hw hs hd hds hc hlt ty m v ty? hty
   | edgeGoCome s d r ty? v hr hcyc => exact deleteEdge_addEdge_run hw hr ty? v hcyc
   | retype s d r nt hr hcyc => exact changeEdgeType_back_run hw hr nt hcyc
-  | rename a b r vt1 vt2 hr hb hplain hlag hvt1 hvt2 hacc =>
-    exact replaceNode_back_run hw hr hb hplain hlag hvt1 hvt2 hacc
+  | rename a b r vt1 vt2 hr hb hplain hlag hvt1 hvt2 =>
+    exact replaceNode_back_run hw hr hb hplain hlag hvt1 hvt2
   | reassert n r vt? m? hr hvt hm => exact replaceNode_inplace_same_run hw hr vt? m? hvt hm
 
 /-- **Law 9.**  Any finite sequence of detours, each of them one of the shapes above with its side condition at the
@@ -691,10 +825,6 @@ inductive Dirty : Graph → List Op → List Op → Prop
   | call {g : Graph} (op : Op) {dirty clean : List Op} :
       Dirty (step g op).1 dirty clean → Dirty g (op :: dirty) (op :: clean)
   | detour {g : Graph} {ops dirty clean : List Op} : Detour g ops → Dirty g dirty clean → Dirty g (ops ++ dirty) clean
-
-/-- every step of the state machine keeps the invariant (C03 refinement + `wf_stepRef`) -/
-theorem wf_step {g : Graph} (hw : WF g) (op : Op) : WF (step g op).1 := by
-  rw [C03.step_eq_stepRef hw]; exact wf_stepRef hw op
 
 /-- **Law 9, as the harness uses it**: a graph built dirty is the graph built clean -/
 theorem dirty_build_eq_clean_build {g : Graph} (hw : WF g) {dirty clean : List Op} (h : Dirty g dirty clean) :
@@ -721,5 +851,57 @@ example : run C03.Ex.g (List.flatten [[.addNode "z" .binary [("k", "1")], .delet
         (fun hc => by cases hc) (fun _ ht => by cases ht)
     · exact .retype "a" "b" C03.Ex.er _ (by decide) (by decide +kernel)
     · exact .refused _ .cyclicConnection rfl (by rw [C03.Ex.step_fails]))
+
+/-! ## where a detour is NOT the identity (witnesses; the side conditions above are needed)
+
+`cyc` is `a → b → c → a`, a plain graph that holds a directed cycle (reachable only with `validate=False`); it is
+well formed.  `tsAX` is the time-series graph `A -- X` (both at lag 0, stored `(A, X)`). -/
+namespace NotIdentity
+
+def cyc : Graph := C03.Ex.g.insEdge "c" "a" C03.Ex.er
+
+theorem wf_cyc : WF cyc :=
+  C03.wf_insEdge C03.Ex.wf_g _ (by decide) (by decide) (by decide) (by decide) (fun hc => by cases hc)
+
+/-- law 4 without its side condition: `a → b` is deleted, the validated re-add is refused (`b` is on the directed cycle
+    that the new edge closes again), the edge stays deleted -/
+example : (step (step cyc (.deleteEdge "a" "b" none)).1
+      (.addEdge { id := "a" } { id := "b" } .directed [] true)).2 = some .cyclicConnection ∧
+    (run cyc [.deleteEdge "a" "b" none, .addEdge { id := "a" } { id := "b" } .directed [] true]).edges.keys =
+      [("b", "c"), ("c", "a")] ∧ cyc.edges.keys = [("a", "b"), ("b", "c"), ("c", "a")] := by
+  decide +kernel
+
+/-- law 5 without its side condition: `a → b` becomes `a -- b` (accepted: no directed cycle is left), the way back is
+    refused and the repair of `change_edge_type` restores the UNDIRECTED edge -/
+example : (step cyc (.changeEdgeType "a" "b" .undirected)).2 = none ∧
+    (step (step cyc (.changeEdgeType "a" "b" .undirected)).1 (.changeEdgeType "a" "b" .directed)).2 =
+      some .cyclicConnection ∧
+    (run cyc [.changeEdgeType "a" "b" .undirected, .changeEdgeType "a" "b" .directed]).edges[(("a", "b") : EKey)]? =
+      some ⟨.undirected, []⟩ ∧ cyc.edges[(("a", "b") : EKey)]? = some ⟨.directed, []⟩ := by
+  decide +kernel
+
+def tsAX : Graph :=
+  (((Graph.empty .ts).insNode "A" { vtype := .unspecified, md := [], var := "A", lag := 0 }).insNode "X"
+    { vtype := .unspecified, md := [], var := "X", lag := 0 }).insEdge "A" "X" ⟨.undirected, []⟩
+
+/-- law 6 without `hlag`: `A` is renamed to `A future(n=1)` (lag 1) and back; both calls are accepted, nodes and
+    attributes come back, but the undirected edge is now stored `(X, A)`: equal only up to the stored orientation of
+    a symmetric edge -/
+example : (step tsAX (.replaceNode "A" (some "A future(n=1)") none none none none)).2 = none ∧
+    (step (step tsAX (.replaceNode "A" (some "A future(n=1)") none none none none)).1
+      (.replaceNode "A future(n=1)" (some "A") none none none none)).2 = none ∧
+    (run tsAX [.replaceNode "A" (some "A future(n=1)") none none none none,
+      .replaceNode "A future(n=1)" (some "A") none none none none]).edges.keys = [("X", "A")] ∧
+    tsAX.edges.keys = [("A", "X")] := by
+  decide +kernel
+
+/-- law 3 with the caller's orientation in the time-series class: `add_edge('X lag(n=1)', 'A lag(n=3)', '--')` is
+    stored earlier → later, and `delete_edge` with the caller's orientation is refused (the edge stays) -/
+example : (run C03.Ex.gr [.addEdge { id := "X lag(n=1)" } { id := "A lag(n=3)" } .undirected [] true,
+      .deleteEdge "X lag(n=1)" "A lag(n=3)" none]).edges.keys =
+    [("A lag(n=3)", "X"), ("A lag(n=3)", "X lag(n=1)"), ("X lag(n=1)", "X")] := by
+  decide +kernel
+
+end NotIdentity
 
 end CG.C01
